@@ -4,6 +4,7 @@ From Coq Require Import Strings.String.
 From Coq Require Import List NArith Bool Lia.
 From V Require Import Base.Bytes Base.Res Base.Regex Base.Re2c Proofs.RegexProofs.
 From V Require Import Model.Ast Gen.ScannersRe Model.Scan.
+From V Require Gen.Scanners.
 Import ListNotations.
 Local Open Scope list_scope.
 
@@ -260,13 +261,15 @@ Proof. apply forall_bytes2. vm_compute. reflexivity. Qed.
 Lemma matches_chr_ci b p :
   is_upper b = false -> (matches (chr_ci b) p <-> exists c, p = [c] /\ to_lower_ascii c = b).
 Proof.
-  intro Hb. split.
+  intro Hb.
+  assert (G : forall c, matchb (chr_ci b) [c] = beqb (to_lower_ascii c) b).
+  { intro c. pose proof (chr_ci_byte b c) as G. rewrite Hb in G. cbn [negb implb] in G.
+    apply eqb_prop in G. exact G. }
+  split.
   - intro H. destruct (chr_ci_Chr b) as [cs E]. pose proof H as H'. rewrite E in H'.
     apply matches_Chr in H'. destruct H' as (c & -> & _). exists c. split; [reflexivity |].
-    apply matchb_spec in H. pose proof (chr_ci_byte b c) as G. rewrite Hb, H in G. simpl in G.
-    apply beqb_eq. destruct (beqb (to_lower_ascii c) b); [reflexivity | discriminate G].
-  - intros (c & -> & E). apply matchb_spec. pose proof (chr_ci_byte b c) as G. rewrite Hb in G. simpl in G.
-    apply beqb_eq in E. rewrite E in G. destruct (matchb (chr_ci b) [c]); [reflexivity | discriminate G].
+    apply matchb_spec in H. rewrite G in H. apply beqb_eq. exact H.
+  - intros (c & -> & E). apply matchb_spec. rewrite G. apply beqb_eq. exact E.
 Qed.
 
 Lemma matches_lit_ci_cons b l p :
@@ -316,7 +319,7 @@ Proof.
   - simpl in Hl. apply andb_true_iff in Hl. destruct Hl as [Hb Hl]. apply negb_true_iff in Hb.
     destruct s as [|x s]; cbn [Scanners.ci_prefix].
     + split; [discriminate |]. intros (p & q & E & H). symmetry in E. apply app_eq_nil in E. destruct E; subst.
-      apply lit_ci_length in H. discriminate H.
+      apply lit_ci_length in H. simpl in H. discriminate H.
     + rewrite andb_true_iff, beqb_eq, (IH Hl). split.
       * intros [Hx (p & q & -> & H)]. exists (x :: p), q. split; [reflexivity |].
         apply matches_lit_ci_cons. exists [x], p. repeat split; [| exact H].
@@ -402,8 +405,9 @@ Proof.
   rewrite S1, S2.
   destruct (run_rules_plain [RPlain R1 ActNone; RPlain R2 ActCursor] ActNone s eq_refl)
     as [[E Hno] | (r & a & L & Hin & Hl & E & Hmax)]; rewrite E; unfold as_opt_usize; simpl.
-  - rewrite (Hno (RPlain R1 ActNone)) by (left; reflexivity).
-    rewrite (Hno (RPlain R2 ActCursor)) by (right; left; reflexivity). reflexivity.
+  - pose proof (Hno (RPlain R1 ActNone) (or_introl eq_refl)) as N1.
+    pose proof (Hno (RPlain R2 ActCursor) (or_intror (or_introl eq_refl))) as N2.
+    cbn [rule_re] in N1, N2. rewrite N1, N2. reflexivity.
   - destruct Hin as [Hin | [Hin | []]]; inversion Hin; subst r a; clear Hin; simpl.
     + rewrite Hl. reflexivity.
     + rewrite Hl. simpl. destruct (longest_match R1 s) as [n1|] eqn:E1; [exfalso | reflexivity].
@@ -465,18 +469,20 @@ Proof.
   assert (E : is_some (as_opt_usize (run_rules [RPlain R0 ActCursor] ActNone 0 s)) = is_some (longest_match R0 s)).
   { destruct (run_rules_plain [RPlain R0 ActCursor] ActNone s eq_refl)
       as [[E Hno] | (r & a & L & Hin & Hl & E & _)]; rewrite E; unfold as_opt_usize; simpl.
-    - rewrite (Hno (RPlain R0 ActCursor)) by (left; reflexivity). reflexivity.
+    - pose proof (Hno (RPlain R0 ActCursor) (or_introl eq_refl)) as N1. cbn [rule_re] in N1.
+      rewrite N1. reflexivity.
     - destruct Hin as [Hin | []]. inversion Hin; subst. rewrite Hl. reflexivity. }
   rewrite E. apply eq_true_iff_eq. rewrite lm_some_prefix. unfold scheme_matches. split.
   - destruct s as [|c r]; [discriminate |]. rewrite andb_true_iff, scheme_tail_spec.
     intros [Hc (m & q & -> & Hm & Hn)]. exists (c :: m ++ [x3a]), q. split.
     + simpl. rewrite <- app_assoc. reflexivity.
-    + unfold R0. change (c :: m ++ [x3a]) with (([c] ++ m) ++ [x3a]). rewrite app_comm_cons.
-      constructor; [| constructor; reflexivity]. change (c :: m) with ([c] ++ m). constructor.
-      * constructor. pose proof (scheme_first_cs c) as G. rewrite Hc in G. apply eqb_prop in G. symmetry. exact G.
-      * apply matches_Repeat_Chr; [lia |]. split; [lia |].
-        eapply Forall_impl'; [| exact Hm]. intros b Hb. pose proof (scheme_rest_cs b) as G. rewrite Hb in G.
-        apply eqb_prop in G. symmetry. exact G.
+    + unfold R0. apply matches_Cat. exists (c :: m), [x3a]. split; [reflexivity | split].
+      * apply matches_Cat. exists [c], m. split; [reflexivity | split].
+        -- constructor. pose proof (scheme_first_cs c) as G. rewrite Hc in G. apply eqb_prop in G. symmetry. exact G.
+        -- apply matches_Repeat_Chr; [lia |]. split; [lia |].
+           eapply Forall_impl'; [| exact Hm]. intros b Hb. pose proof (scheme_rest_cs b) as G. rewrite Hb in G.
+           apply eqb_prop in G. symmetry. exact G.
+      * constructor. reflexivity.
   - intros (p & q & -> & H). unfold R0 in H. apply matches_Cat in H. destruct H as (p1 & p3 & -> & H1 & H3).
     apply matches_Cat in H1. destruct H1 as (p0 & p2 & -> & H0 & H2).
     apply matches_Chr in H0. destruct H0 as (c & -> & Hc). apply matches_Chr in H3. destruct H3 as (e & -> & He).
